@@ -95,6 +95,7 @@ func (s jsonParse) next() report {
 type jsLex struct {
 	l      *js.Lexer
 	regexp bool // call RegExp() after every '/' or '/=' token
+	always bool // call RegExp() after EVERY token that is not an error report (a caller that does not keep to the documented order)
 	redo   bool
 }
 
@@ -108,7 +109,7 @@ func (s *jsLex) next() report {
 		name = "RegExp:"
 	} else {
 		tt, d = s.l.Next()
-		if s.regexp && (tt == js.DivToken || tt == js.DivEqToken) {
+		if s.regexp && (tt == js.DivToken || tt == js.DivEqToken) || s.always && tt != js.ErrorToken {
 			s.redo = true
 		}
 	}
@@ -169,6 +170,7 @@ var Langs = func() []Lang {
 		{Name: "js.lex", Family: "js", TokenLvl: true, Concat: true, relex: relexJS,
 			open: func(in *parse.Input) stepper { return &jsLex{l: js.NewLexer(in)} }},
 		{Name: "js.lex.re", Family: "js", open: func(in *parse.Input) stepper { return &jsLex{l: js.NewLexer(in), regexp: true} }},
+		{Name: "js.lex.re.any", Family: "js", open: func(in *parse.Input) stepper { return &jsLex{l: js.NewLexer(in), always: true} }},
 	}
 	for _, d := range tmplDialects {
 		pair := d.pair
